@@ -941,3 +941,73 @@ mutate "(v13) priorityqueue.New installs no comparator on the queue" queues/prio
 mutate "(v14) arraystack.New pre-fills the list" stacks/arraystack/arraystack.go \
 '	return &Stack[T]{list: arraylist.New[T]()}' '	var zero T
 	return &Stack[T]{list: arraylist.New[T](zero)}'
+
+# ---------------------------------------------------------------- COMPOSITIONS: wrapper code over generated implementation code
+mutate "(c1) arraystack over arraylist, wrapper side: Pop removes index 0" stacks/arraystack/arraystack.go \
+'	stack.list.Remove(stack.list.Size() - 1)
+	return' '	stack.list.Remove(0)
+	return'
+
+mutate "(c2) arraystack / arrayqueue / binaryheap over arraylist, implementation side: arraylist.Swap writes elements[j] twice" lists/arraylist/arraylist.go \
+'		list.elements[i], list.elements[j] = list.elements[j], list.elements[i]' '		list.elements[i], list.elements[j] = list.elements[j], list.elements[j]'
+
+mutate "(c3) arrayqueue over arraylist, wrapper side: Peek reads the last element" queues/arrayqueue/arrayqueue.go \
+'func (queue *Queue[T]) Peek() (value T, ok bool) {
+	return queue.list.Get(0)' 'func (queue *Queue[T]) Peek() (value T, ok bool) {
+	return queue.list.Get(queue.list.Size() - 1)'
+
+mutate "(c4) arraystack / arrayqueue / binaryheap over arraylist, implementation side: arraylist.Get accepts index == size" lists/arraylist/arraylist.go \
+'func (list *List[T]) Get(index int) (T, bool) {
+
+	if !list.withinRange(index) {' 'func (list *List[T]) Get(index int) (T, bool) {
+
+	if !list.withinRange(index) && index != len(list.elements) {'
+
+mutate "(c5) linkedliststack / linkedlistqueue over cells, implementation side: singlylinkedlist.Prepend forgets last on an empty list" lists/singlylinkedlist/singlylinkedlist.go \
+'		list.first = newElement
+		if list.size == 0 {
+			list.last = newElement
+		}
+		list.size++' '		list.first = newElement
+		list.size++'
+
+mutate "(c6) linkedliststack over cells, wrapper side: Peek reads index 1" stacks/linkedliststack/linkedliststack.go \
+'func (stack *Stack[T]) Peek() (value T, ok bool) {
+	return stack.list.Get(0)' 'func (stack *Stack[T]) Peek() (value T, ok bool) {
+	return stack.list.Get(1)'
+
+mutate "(c7) linkedlistqueue over cells, wrapper side: Enqueue prepends" queues/linkedlistqueue/linkedlistqueue.go \
+'	queue.list.Add(value)' '	queue.list.Prepend(value)'
+
+mutate "(c8) priorityqueue over heap, wrapper side: Enqueue pushes the value twice" queues/priorityqueue/priorityqueue.go \
+'func (queue *Queue[T]) Enqueue(value T) {
+	queue.heap.Push(value)' 'func (queue *Queue[T]) Enqueue(value T) {
+	queue.heap.Push(value)
+	queue.heap.Push(value)'
+
+mutate "(c9) binaryheap / priorityqueue over arraylist, heap side: Pop swaps with lastIndex-1" trees/binaryheap/binaryheap.go \
+'	heap.list.Swap(0, lastIndex)' '	heap.list.Swap(0, lastIndex-1)'
+
+mutate "(c10) linkedhashset / linkedhashmap over cells, implementation side: doublylinkedlist.Remove forgets element.next.prev" lists/doublylinkedlist/doublylinkedlist.go \
+'	if element.next != nil {
+		element.next.prev = element.prev
+	}
+' ''
+
+mutate "(c11) linkedhashset over cells, wrapper side: Remove forgets the ordering list" sets/linkedhashset/linkedhashset.go \
+'			delete(set.table, item)
+			index := set.ordering.IndexOf(item)
+			set.ordering.Remove(index)' '			delete(set.table, item)'
+
+mutate "(c12) linkedhashmap over cells, wrapper side: Put appends the key even when present" maps/linkedhashmap/linkedhashmap.go \
+'	if _, contains := m.table[key]; !contains {
+		m.ordering.Append(key)
+	}
+	m.table[key] = value' '	m.ordering.Append(key)
+	m.table[key] = value'
+
+mutate "(c13) harmless: arraystack.Pop reads the size once" stacks/arraystack/arraystack.go \
+'	value, ok = stack.list.Get(stack.list.Size() - 1)
+	stack.list.Remove(stack.list.Size() - 1)' '	last := stack.list.Size() - 1
+	value, ok = stack.list.Get(last)
+	stack.list.Remove(last)'
